@@ -92,7 +92,8 @@ class Parameter:
                 )
             if not isnumeric(value):
                 raise ParameterBoundsError("Bound should be numeric or None.")
-            if self.__value < value:
+            # Comparison is written so that a NaN value or bound is rejected
+            if not self.__value >= value:
                 raise ParameterBoundsError(
                     "Current parameter value is below new minimum bound."
                 )
@@ -112,7 +113,7 @@ class Parameter:
                 )
             if not isnumeric(value):
                 raise ParameterBoundsError("Bound should be numeric or None.")
-            if self.__value > value:
+            if not self.__value <= value:
                 raise ParameterBoundsError(
                     "Current parameter value is above new maximum bound."
                 )
@@ -141,11 +142,12 @@ class Parameter:
                     "Parameter cannot be set to non-numeric value when "
                     "bounds are assigned to parameter."
                 )
+        # Comparisons are written so that NaN is rejected when bounds are set
         if self.min_bound is not None:
-            if value < self.min_bound:
+            if not value >= self.min_bound:
                 raise ParameterValueError("Set value is below minimum bound.")
         if self.max_bound is not None:
-            if value > self.max_bound:
+            if not value <= self.max_bound:
                 raise ParameterValueError("Set value is above maximum bound.")
         self.__value = value
         return
